@@ -4,6 +4,7 @@ import GenlmModel.Proofs.Fst
 import GenlmModel.Proofs.Tab
 import GenlmModel.Proofs.Compose
 import GenlmModel.Proofs.LimPrefix
+import GenlmModel.Proofs.GapTruncate
 /-! # C09 — grammar∘transducer composition is relational composition
 About the mirror model `compose` / `composeAll` of `CFG.__matmul__` (weighted Bar-Hillel construction
 with the ε handling of the code: special rules `a → ε a`, `Other(S)`), every commutative semiring.
@@ -30,4 +31,10 @@ alias driver_compose_is_model := Genlm.composeShared_eq
 ranging over ALL input strings, derivations and transducer paths (ε on both tapes, cycles) -/
 alias compose_true_limit := Genlm.compose_WL
 alias compose_pruned_true_limit := Genlm.compose_WL'
+
+/-- length truncation (`truncate_length`: composition with the acceptor of all strings of length ≤ N) keeps exactly the
+strings within the bound, with unchanged weights -/
+alias truncate_length_limit := Genlm.truncateLength_WL
+alias truncate_length_levelwise_bounds := Genlm.truncateLength_WN
+alias truncate_length_long_strings_zero := Genlm.truncateLength_WN_long
 end Genlm.Props.C09
